@@ -401,6 +401,40 @@ def createNested : Path → M → M × Out
     let (c, o) := createNested (k2 :: rest) (.node bs dv ns [])
     (.node bs dv ns (kset k c kids), o)
 
+/-- `pop(key)` without default: `get` (KeyError when absent, ValueError through a tensor) then `del_` -/
+def popPath (p : Path) (t : M) : M × Out :=
+  if p = [] then (t, .err .key)
+  else if throughLeaf p t then (t, .err .value)
+  else match getPath p t with
+    | none => (t, .err .key)
+    | some _ => delPath p t
+
+/-- `popitem()`: the entry inserted last leaves (`dict.popitem`) -/
+def popItem : M → M × Out
+  | .leaf s d => (.leaf s d, .err .attr)
+  | .node bs dv ns kids => if kids = [] then (.node bs dv ns kids, .err .key) else (.node bs dv ns kids.dropLast, .ok)
+
+/-- `setdefault(key, value)` with a tuple key: `set` only when the key is not bound (membership through a tensor is False) -/
+def setDefaultPath (p : Path) (v : M) (t : M) : M × Out :=
+  if p = [] then (t, .err .type)
+  else if (getPath p t).isSome then (t, .ok) else setPath false p v t
+
+/-- the loop of `refine_names(*names)`: a named dim can only be refined to the same name; more names than
+batch dims index past the current names (IndexError) -/
+def refineLoop : DimNames → DimNames → Out
+  | [], _ => .ok
+  | _ :: _, [] => .err .index
+  | n :: ns, c :: cs => if c.isNone || c == n then refineLoop ns cs else .err .runtime
+
+/-- `td.refine_names(*names)` (no Ellipsis): the loop, then the `names` setter -/
+def refineNamesM (names : DimNames) (t : M) : M × Out :=
+  match t with
+  | .leaf s d => (.leaf s d, .err .attr)
+  | .node bs dv ns kids =>
+    match refineLoop names (M.namesList (.node bs dv ns kids)) with
+    | .err e => (.node bs dv ns kids, .err e)
+    | .ok => setNamesM (some names) (.node bs dv ns kids)
+
 /-- apply `f` to the node addressed by `handle` (a nested handle `td[handle]`), rebuilding the path -/
 def atPath (f : M → M × Out) : Path → M → M × Out
   | [], t => f t
@@ -420,6 +454,10 @@ inductive Op where
   | rename (handle old new : Path)
   | createNested (handle key : Path)
   | clear (handle : Path)
+  | pop (handle key : Path)
+  | popitem (handle : Path)
+  | setdefault (handle key : Path) (v : M)
+  | refineNames (handle : Path) (names : DimNames)
   deriving Repr, Inhabited
 
 def clearM : M → M × Out
@@ -434,6 +472,10 @@ def step (t : M) : Op → M × Out
   | .rename h o n => atPath (renamePath o n) h t
   | .createNested h key => atPath (createNested key) h t
   | .clear h => atPath clearM h t
+  | .pop h key => atPath (popPath key) h t
+  | .popitem h => atPath popItem h t
+  | .setdefault h key v => atPath (setDefaultPath key v) h t
+  | .refineNames h ns => atPath (refineNamesM ns) h t
 
 def run (t : M) : List Op → M
   | [] => t
